@@ -73,6 +73,28 @@ CHECKS = {
                 "comparisons are z>0 and run in every constructor and +=; keyword dispatch shape; MC-truth sibling (with C09).",
         "note": "Not decided: associativity as list equality (follows informally from R19a+R19b), user subclasses. Necessary conditions.",
     },
+    "C05": {
+        "technique": "static analysis: abstract interpretation (homogeneity-degree, symbolic-length and affine-time domains) + def-use pattern rules",
+        "text": "Three abstract interpretations of filter_frequencies/_get_filter_response/_apply_filters prove, for every signal length, "
+                "step, offset and response function: new values are linear in the old values and in the response's output on both the "
+                "vectorised and scalar fall-back arm (R05a); FFT operands, fftfreq and responses all have length 2N, padding is N, the "
+                "stored slice is N (R05b: operands agree, no wrap-around for delays < window); values have translation weight 0 when the "
+                "time grid has weight 1 (R05c: shift invariance). Def-use rules fix the Hermitian mirror (R05d) and the single "
+                "application of the product of filters (R05e).",
+        "note": "Not decided: identity for a unit response up to rounding, energy inequality, Nyquist bin. Trusted: numpy/scipy summary "
+                "tables (fft/ifft linear and length-preserving, fftfreq(n) has length n).",
+    },
+    "C08": {
+        "technique": "static analysis: abstract interpretation (homogeneity-degree and rotation-covariance domains) + delegation/decision-list rules",
+        "text": "apply_response of Antenna, DipoleAntenna and through AntennaSystem is interpreted abstractly: result values Lin in the "
+                "signal, degree +1 in directional gain, polarization gain, efficiency and frequency response, degree -1 in antenna_factor "
+                "on the field arm and 0 on the voltage arm (R08a, sufficient, all inputs). Rotation domain: with all geometric inputs "
+                "typed as lab-frame vectors the angles, gains and response are scalars (R08e). Decision list on the input signal's type "
+                "(R08b), copy/filter-once/scale-once (R08c), parameter-complete delegation (R08d), dipole formulas in normal form (R08f), "
+                "one stored sum per receive (R08g).",
+        "note": "Not decided: Butterworth values, numerical equality under rotation, gains of custom antenna classes. Trusted: summary "
+                "tables of the two domains.",
+    },
 }
 
 _TODO = "check not built yet in this session (see DESIGN.md section 3 for the planned rules)"
